@@ -1,4 +1,4 @@
-From Coq Require Import List NArith Lia Bool.
+From Coq Require Import List NArith Lia Bool Arith.
 From MM Require Import Lib.Bytes Model.Parse Model.Auth.
 Import ListNotations.
 Open Scope N_scope.
@@ -42,8 +42,9 @@ Notation verify_decoded := (verify_decoded sha1).
 Theorem verify_complete pw nonce :
   verify_decoded (Some (stored_of sha1 pw)) (scramble pw nonce) nonce = true.
 Proof.
-  unfold Auth.verify_decoded, Auth.scramble, stored_of. apply list_eqb_eq.
-  rewrite xor_involutive by (now rewrite !sha1_len). reflexivity.
+  unfold Auth.verify_decoded, Auth.scramble, stored_of. apply andb_true_iff. split.
+  - apply Nat.leb_le. rewrite xor_bytes_length, !sha1_len. reflexivity.
+  - apply list_eqb_eq. rewrite xor_involutive by (now rewrite !sha1_len). reflexivity.
 Qed.
 
 (* soundness: acceptance means the first 20 bytes of the response are the XOR, under THIS nonce, of a SHA-1
@@ -59,9 +60,10 @@ Proof.
 Qed.
 
 Theorem verify_accepts_iff_preimage h2 response nonce :
-  verify_decoded (Some h2) response nonce = true <-> sha1 (xor_bytes (firstn 20 response) (sha1 (nonce ++ h2))) = h2.
+  verify_decoded (Some h2) response nonce = true <->
+  (20 <= length response)%nat /\ sha1 (xor_bytes (firstn 20 response) (sha1 (nonce ++ h2))) = h2.
 Proof.
-  unfold Auth.verify_decoded. rewrite list_eqb_eq. rewrite (xor_firstn response), sha1_len. reflexivity.
+  unfold Auth.verify_decoded. rewrite andb_true_iff, Nat.leb_le, list_eqb_eq. rewrite (xor_firstn response), sha1_len. reflexivity.
 Qed.
 
 Theorem malformed_never_accepts response nonce : verify_decoded None response nonce = false.
@@ -70,11 +72,11 @@ Proof. reflexivity. Qed.
 (* a response accepted under two different nonces exhibits a SHA-1 collision: "useless elsewhere" holds
    modulo collision resistance, which is stated in the conclusion, not assumed *)
 Theorem replay_needs_collision h2 response n1 n2 :
-  (20 <= length response)%nat -> n1 <> n2 -> length n1 = length n2 ->
+  n1 <> n2 -> length n1 = length n2 ->
   verify_decoded (Some h2) response n1 = true -> verify_decoded (Some h2) response n2 = true ->
   exists a b, a <> b /\ sha1 a = sha1 b.
 Proof.
-  intros L Hn Hl V1 V2. apply verify_accepts_iff_preimage in V1. apply verify_accepts_iff_preimage in V2.
+  intros Hn Hl V1 V2. apply verify_accepts_iff_preimage in V1 as [L V1]. apply verify_accepts_iff_preimage in V2 as [_ V2].
   set (d1 := sha1 (n1 ++ h2)) in *. set (d2 := sha1 (n2 ++ h2)) in *. set (r := firstn 20 response) in *.
   assert (Lr : length r = 20%nat) by (unfold r; rewrite firstn_length; lia).
   destruct (list_eq_dec N.eq_dec d1 d2) as [E|E].
@@ -101,10 +103,9 @@ Proof.
   now rewrite !orb_false_r.
 Qed.
 
-(* with a 20-byte hash an empty response never verifies against a well-formed 20-byte stored hash *)
-Lemma empty_never_verifies h2 nonce : length h2 = 20%nat -> verify_decoded (Some h2) [] nonce = true ->
-  sha1 [] = h2.
-Proof. unfold Auth.verify_decoded. cbn. intros _ H. now apply list_eqb_eq in H. Qed.
+(* a response shorter than 20 bytes - the empty one included - never verifies, whatever the stored hash *)
+Lemma short_never_verifies h2 response nonce : (length response < 20)%nat -> verify_decoded (Some h2) response nonce = false.
+Proof. intros L. unfold Auth.verify_decoded. apply andb_false_iff. left. apply Nat.leb_gt. exact L. Qed.
 
 Theorem matches_routes u response nonce : password_matches sha1 u response nonce = true ->
   (response = [] /\ empty_auth (u_auth u) = true) \/
